@@ -124,7 +124,8 @@ contract(
     requires=_mt_req, ensures=_mt_post, may_raise=('BaseException',), havoc_all=True, result='none',
     loops={0: Loop(_mt_inv, facts=_mt_nvar, hints=lambda c: _mt_hints(c),
                    pivots=lambda c: [poskey(_mt_terms(c)[2], c.k), c.k])},
-    calls={'state.yield_map_child_values': 'daglish.State.yield_map_child_values'},
+    calls={'state.yield_map_child_values': 'daglish.State.yield_map_child_values',
+           'config._field_uses_default_factory': 'config._field_uses_default_factory'},
     props=(),  # NOT YET DISCHARGED: loop0/preserve (the two assigning paths) stays `unknown`; kept for a later session
     note='per node: afterwards every parameter that has a default value (and is not a dataclass '
          'default_factory field) is set — to its previous value if it was set, to the default '
